@@ -86,6 +86,15 @@ type specFuncDecl struct {
 	pkg    *types.Package
 }
 
+// TypeInv: an invariant over the immutable fields of a heap struct type. It
+// is assumed whenever a non-nil pointer of the type is read, and proved at
+// the exit of every function that allocates the type.
+type TypeInv struct {
+	Var    string
+	Type   string
+	Clause *Clause
+}
+
 type SpecFile struct {
 	Pkg       string // short package name for unqualified keys
 	Contracts []*Contract
@@ -93,6 +102,7 @@ type SpecFile struct {
 	Axioms    []*Clause
 	Lemmas    []*Clause
 	LocSets   map[string][]string
+	TypeInvs  []*TypeInv
 	Ghosts    []string // "Struct.field sort"
 	GhostVars []string // "$name sort"
 }
@@ -101,7 +111,7 @@ var headerRe = regexp.MustCompile(`^func\s*(\(([^)]*)\))?\s*([A-Za-z0-9_./$:\[\]
 
 var clauseKw = map[string]bool{"requires": true, "ensures": true, "modifies": true, "allocates": true, "maypanic": true,
 	"trusted": true, "onpanic": true, "loop": true, "site": true, "let": true, "oldlet": true, "noinline": true}
-var topKw = map[string]bool{"locset": true, "func": true, "pure": true, "ufunc": true, "axiom": true, "lemma": true, "ghost": true, "package": true}
+var topKw = map[string]bool{"typeinv": true, "locset": true, "func": true, "pure": true, "ufunc": true, "axiom": true, "lemma": true, "ghost": true, "package": true}
 
 // readSpecLines collects the //@ lines of a file, joining continuation lines.
 func readSpecLines(path string) (pkg string, lines []string, where []string, err error) {
@@ -178,6 +188,23 @@ func parseSpecFile(path string) (*SpecFile, error) {
 		switch kw {
 		case "package":
 			sf.Pkg = rest
+		case "typeinv":
+			// typeinv[label] (n *T) expr
+			labels, r := parseLabels(rest)
+			if !strings.HasPrefix(r, "(") {
+				return nil, fail("typeinv: expected (var *Type) expr")
+			}
+			j := strings.Index(r, ")")
+			parts := strings.Fields(r[1:j])
+			if len(parts) != 2 {
+				return nil, fail("typeinv: expected (var *Type)")
+			}
+			e, err := parseSpecExpr(r[j+1:])
+			if err != nil {
+				return nil, fail("%v", err)
+			}
+			sf.TypeInvs = append(sf.TypeInvs, &TypeInv{Var: parts[0], Type: parts[1], Clause: &Clause{Kind: "typeinv", Labels: labels, Src: strings.TrimSpace(r[j+1:]), Expr: e, Where: w}})
+			cur = nil
 		case "locset":
 			j := strings.Index(rest, "=")
 			if j < 0 {
